@@ -94,10 +94,19 @@ def strategy_argv(a):
 
 
 def normalise(nb, ref):
-    """Drop ids that are random in the child: conflict-marker cells, and cells that carry no id in the library result."""
+    """Drop ids that are random in the child: conflict-marker cells, cells that carry no id in the library result, and cells whose id in
+    the library result repeats an earlier cell's (nbformat's writer replaces the later duplicate with a random id)."""
     nb = copy.deepcopy(nb)
     rc = ref.get("cells", []) if isinstance(ref, dict) else []
+    seen, dup = set(), set()
+    for i, c in enumerate(rc):
+        if "id" in c:
+            if c["id"] in seen:
+                dup.add(i)
+            seen.add(c["id"])
     for i, c in enumerate(nb.get("cells", [])):
+        if i in dup:
+            c.pop("id", None)
         src = c.get("source", "")
         src = "".join(src) if isinstance(src, list) else src
         marker = c.get("cell_type") == "markdown" and MARKER.match(src or "")
